@@ -931,7 +931,54 @@ class ExecuteScriptHelper(FnContract):
         obs.append(('C09.count-never-decreases', count_of(h1, o) >= count_of(h0, o)))
         if K.ctx.ghost.get('K') is K and out.kind == 'return':
             obs += self.return_step_spec(K, out)
+        if K.ctx.ghost.get('K') is K and out.kind == 'raise':
+            obs += self.unknown_label_spec(K, out)
         return obs
+
+    def unknown_label_spec(self, K, out):
+        """C08: the helper's own "Unknown jump label" error is raised only by a taken jump whose label is defined nowhere in
+        the statement list (a label at index 0 included)"""
+        ctx = K.ctx
+        events = ctx.ghost.get('events', [])
+        for e in events:
+            oc = e.get('outcome')
+            if oc is not None and oc.kind == 'raise' and oc.exc is out.exc:
+                return []                   # propagated from a callee: that callee's contract speaks about it
+        args = out.exc.f.get('args') or []
+        if not args:
+            return []
+        try:
+            t = z3.simplify(ctx.to_term(args[0]) if not z3.is_expr(getattr(args[0], 't', None)) else args[0].t)
+            if t.sort() == V:
+                t = z3.simplify(V.s(t))
+        except Exception:      # a message the logic does not represent as text
+            return []
+        parts = []
+
+        def flat(x):
+            if z3.is_app(x) and x.decl().kind() == z3.Z3_OP_SEQ_CONCAT:
+                for c in x.children():
+                    flat(c)
+            else:
+                parts.append(x)
+        flat(t)
+        if not (parts and z3.is_string_value(parts[0]) and parts[0].as_string().startswith('Unknown jump label')):
+            return []
+        begins = [e for e in events if e.get('kind') == 'loop-body-begin' and e['loop'].endswith('helper.loop0')]
+        if not begins or ctx.ghost.get('case_label') != 'stmt-jump':
+            return [('C08.unknown-jump-label-is-raised-only-by-a-jump-statement', False)]
+        # the label as the message names it (the same heap read the lookup used), else as the model gives it
+        label = None
+        if len(parts) >= 2:
+            x = z3.simplify(parts[1])
+            if z3.is_app(x) and x.decl().kind() == z3.Z3_OP_ITE:
+                x = z3.simplify(x.arg(1))
+            if x.sort() == z3.StringSort():
+                label = x
+        if label is None:
+            st = ctx.to_term(begins[-1]['env']['statement'])
+            label = V.s(mget(mget(st, 'jump'), 'label'))
+        return [('C08.unknown-jump-label-is-raised-only-when-no-label-of-that-name-exists', FIRST(K.term(0), label) < 0)]
 
     def return_step_spec(self, K, out):
         """C08: a path that returns does so through a `return` statement (its optional value evaluated once) or by
@@ -1553,6 +1600,17 @@ except Exception as exc:
     got = 'EXC ' + type(exc).__name__ + ': ' + str(exc)
 if got != 'ABA':
     bad.append({'program': 'jump to a duplicated label', 'expected': 'ABA (first label of that name)', 'observed': repr(got)})
+model0 = {'statements': [
+    {'label': 'top'},
+    {'expr': {'name': 'nn', 'expr': {'binary': {'op': '+', 'left': {'function': {'name': 'if', 'args': [{'variable': 'nn'}, {'variable': 'nn'}, {'number': 0}]}}, 'right': {'number': 1}}}}},
+    {'jump': {'label': 'top', 'expr': {'binary': {'op': '<', 'left': {'variable': 'nn'}, 'right': {'number': 3}}}}},
+    {'return': {'expr': {'variable': 'nn'}}}]}
+try:
+    got0 = execute_script(model0, {'globals': {}, 'maxStatements': 1000})
+except Exception as exc:
+    got0 = 'EXC ' + type(exc).__name__ + ': ' + str(exc)
+if got0 != 3:
+    bad.append({'program': 'jump back to a label that is the first statement of the list', 'expected': '3', 'observed': repr(got0)})
 run('jumpif (objectNew()) skip\\nreturn 1\\nskip:\\nreturn 2\\n', expect=2.0, what='an empty object is truthy in a jump condition')
 run('jumpif (arrayNew()) skip\\nreturn 1\\nskip:\\nreturn 2\\n', expect=1.0, what='an empty array is falsy in a jump condition')
 result = {'violates': bool(bad), 'counterexamples': bad[:2]}
@@ -1621,7 +1679,8 @@ result = {'violates': bool(bad), 'counterexamples': bad[:3]}
 """
 
 ExecuteScriptHelper.native_witness = {'assignment-writes-locals-inside-functions-else-globals': ASSIGNMENT_WITNESS,
-                                      'jump-continues-after-the-first-matching-label': JUMP_WITNESS}
+                                      'jump-continues-after-the-first-matching-label': JUMP_WITNESS,
+                                      'C08.unknown-jump-label-is-raised-only': JUMP_WITNESS}
 ScriptFunction.native_witness = {'C04.bound-so-far': BINDING_WITNESS, 'C04.parameters-bound-positionally': BINDING_WITNESS}
 EvaluateExpression.native_witness = {'operator-semantics': OPERATOR_WITNESS, 'C03.short-circuit': OPERATOR_WITNESS,
                                      'C03.unary': OPERATOR_WITNESS, 'C05.only-documented-exceptions-escape': CONTAINMENT_WITNESS}
